@@ -152,6 +152,19 @@ def r2(tree, rep):
         c = [c for c in ast.walk(g.stmt[reg[0]]) if isinstance(c, ast.Call) and isinstance(c.func, ast.Attribute) and c.func.attr == "registerProducer"][0]
         ok = isinstance(c.args[0], ast.Name) and c.args[0].id == "self" and const(c.args[1]) is True
     rep.check("C15.R2", "use_connection registers itself as a push producer with the transport before resuming", ok, site(uc, OUT), key="C15.R2:use_connection")
+    # pairing: what use_connection registers with the transport, stop_using_connection unregisters from it while it still knows it
+    # (a transport that keeps us as its producer can "resume" us later, with no connection: every application producer is woken up,
+    # _paused is False and the next use_connection never flushes)
+    su = tree.func(OUT, "Outbound", "stop_using_connection")
+    g = build(su)
+    unreg = g.call_nodes(lambda c: isinstance(c.func, ast.Attribute) and c.func.attr == "unregisterProducer"
+                         and any(is_self_attr(x, "_connection") for x in ast.walk(c.func.value)))
+    forget = g.nodes(lambda st: isinstance(st, ast.Assign) and any(is_self_attr(t, "_connection") for t in st.targets))
+    ok = bool(unreg) and g.must_pass(unreg) and bool(forget) and not g.precedes(unreg, forget)
+    rep.check("C15.R2", "stop_using_connection unregisters Outbound from the old connection's transport on every path, before it forgets the connection",
+              ok, site(su, OUT), key="C15.R2:stop_using_connection:unregister",
+              what="Outbound stays registered as producer of the abandoned transport: a late drain signal from it resumes every application "
+                   "producer while there is no connection, and the replacement connection never flushes or resumes (lost wake-up)")
     own, foreign = class_writers(tree, "Outbound", "_paused")
     ok = not foreign and all((w.fn == "__attrs_post_init__" and is_const(w.value, True)) or (w.fn == "pauseProducing" and is_const(w.value, True))
                              or (w.fn == "resumeProducing" and is_const(w.value, False)) for w in own)
